@@ -53,6 +53,14 @@ Local Open Scope Q_scope.
 (* sm.k = coords * kvalue (scalar kvalue) *)
 Definition ks_of (kvalue : Q) (coords : list (list Q)) : list (list Q) :=
   map (map (fun c => c * kvalue)) coords.
+(* sm.k with a vector kvalue: coords * kvalue[:kdim], axis by axis *)
+Definition ks_ofv (kvalues : list Q) (coords : list (list Q)) : list (list Q) :=
+  map (fun c => map (fun p => fst p * snd p) (combine c kvalues)) coords.
+(* shift = self.k * sm.kvalue; a SCALAR self.k on kdim > 1 coordinates acts along the first axis only
+   (shift * [1, 0, ..., 0]), an array self.k axis by axis *)
+Definition shift_scalar (k : Q) (kvalues : list Q) : list Q :=
+  match kvalues with [] => [] | kv0 :: r => (k * kv0) :: map (fun _ => 0) r end.
+Definition shift_vector (k kvalues : list Q) : list Q := map (fun p => fst p * snd p) (combine k kvalues).
 (* 1-D state matrix without coords: _setup_coords(nstate, 1) = [[-n], ..., [n]] *)
 Definition coords1 (len : nat) : list (list Q) :=
   tab len (fun i => [inject_Z (Z.of_nat i - Z.of_nat ((len - 1) / 2))]).
